@@ -33,10 +33,13 @@ class Unprojectable(Exception):
 
 
 class LabelCodec(object):
-    def __init__(self, mixed=False):
+    def __init__(self, mixed=False, offset=0):
         self.mixed = mixed
+        self.offset = offset      # shifts numeric labels so that a label can be 0 / negative (falsy labels)
 
     def enc(self, h, kind):
+        if kind in "if":
+            h = h + self.offset
         if kind == "i":
             if self.mixed:
                 assert h % 2 == 0
@@ -68,12 +71,12 @@ class LabelCodec(object):
         if isinstance(x, (bool, np.bool_)):
             raise Unprojectable("bool label")
         if isinstance(x, (int, np.integer)):
-            return (2 * int(x) if self.mixed else int(x)), "i"
+            return (2 * int(x) if self.mixed else int(x)) - self.offset, "i"
         if isinstance(x, (float, np.floating)):
             h = float(x) * 2
             if h != h or h != math.floor(h):
                 raise Unprojectable("label %r" % (x,))
-            return int(h), "f"
+            return int(h) - self.offset, "f"
         raise Unprojectable("label %r of type %s" % (x, type(x)))
 
     def enc_seq(self, hs, kind):
